@@ -111,7 +111,8 @@ func r052(c *Ctx, r *R) {
 	}
 	r.Check(strip(sel.States[0].Send) == opv, "sends-op", sel.Pos(), "the tracked operation is what is sent to the worker", "the value sent to the worker is not the tracked operation")
 	// channel choice
-	for _, l := range phiLeaves(sel.States[0].Chan) {
+	for _, lf := range valueLeaves(sel.States[0].Chan, sel.Block()) {
+		l := lf.Val
 		fld, _ := fieldLoad(l)
 		if fld == nil {
 			if isNilConst(l) {
@@ -120,7 +121,6 @@ func r052(c *Ctx, r *R) {
 			r.Und("channel", sel.Pos(), "queue channel of unknown origin")
 			continue
 		}
-		ld := l.(ssa.Instruction)
 		var want constant.Value
 		switch fld.Name() {
 		case "pinCh":
@@ -131,10 +131,13 @@ func r052(c *Ctx, r *R) {
 			r.Bad("channel:"+fld.Name(), sel.Pos(), "operation is sent to unexpected channel %s", fld.Name())
 			continue
 		}
-		ok := guardedBy(ld.Block(), func(g Guard) bool {
+		// the channel reaches the send only on paths where the type is
+		// the matching one (guards of the value's own path, phi edges
+		// included)
+		ok := lf.GuardedBy(func(g Guard) bool {
 			return gEq(g, want, true, func(x ssa.Value) bool { return paramIndex(f, x) == 3 })
 		})
-		r.Check(ok, "channel:"+fld.Name(), ld.Pos(), fld.Name()+" is chosen for its operation type", fld.Name()+" is chosen for the wrong operation type: pins and unpins would be executed by the wrong worker")
+		r.Check(ok, "channel:"+fld.Name(), l.Pos(), fld.Name()+" is chosen for its operation type", fld.Name()+" is chosen for the wrong operation type: pins and unpins would be executed by the wrong worker")
 	}
 	// the default arm
 	var idxIf *ssa.If
